@@ -24,6 +24,8 @@ VIOL=$(grep -m1 '^VIOLATION' $D/check_quick.log)
 REPLAY=$(echo "$VIOL" | sed -n 's/.*replay=\([^ ]*\).*/\1/p')
 [ -n "$REPLAY" ] && [ -f "$REPLAY" ] && cp "$REPLAY" $D/replay.json
 git -C /repo worktree remove --force $WT
+# leave the generated fact file of this property as it is for /repo (the run above regenerated it from the patched tree)
+(cd /verif && VERIF_REPO=/repo PYTHONPATH=/verif:/repo /venv/bin/python -c "import translator; translator.generate('$P')" > /dev/null 2>&1)
 python3 - <<PY
 import json
 m = {}
